@@ -1,5 +1,5 @@
 ---- MODULE NetFlow9FuzzMC ----
 EXTENDS NetFlow9Fuzz
-SetupsQ == {"norm", "var", "zlen", "zero", "zopt"}
-SetupsT == {"norm", "var", "zlen", "zero", "opt", "big", "nomod", "var65", "t257", "zopt"}
+SetupsQ == {"norm", "var", "zlen", "zero", "zopt", "pad"}
+SetupsT == {"norm", "var", "zlen", "zero", "opt", "big", "nomod", "var65", "t257", "zopt", "pad"}
 ====
